@@ -126,8 +126,12 @@ fn check_history(cx: &mut Ctx, stmts: &[Stmt], model: &[String], origin: &str) -
                 }
                 let next = parse_dump(r);
                 // (D) on the implementation's dumps
+                let mut attributed_step = false;
                 if let Some(next) = &next {
                     for f in d_check(&prev, &stmts[i], next) {
+                        if f.finding.is_some_and(|id| cx.is_open(id)) {
+                            attributed_step = true;
+                        }
                         if let Some(id) = f.finding {
                             if cx.is_open(id) && !reproduced.contains(&id.to_string()) {
                                 reproduced.push(id.to_string());
@@ -135,6 +139,10 @@ fn check_history(cx: &mut Ctx, stmts: &[Stmt], model: &[String], origin: &str) -
                         }
                         cx.d_or_known(&f.law, f.finding, detail(i, &format!("{}: {}", f.law, f.detail), m, r));
                     }
+                }
+                if &m_norm != r && attributed_step {
+                    // the divergence is the listed finding itself; the rest of the history is not comparable
+                    break;
                 }
                 if &m_norm != r && !k_reported {
                     cx.k_violation("Model.Heap.step", detail(i, "heap dumps differ", &m_norm, r));
